@@ -236,7 +236,18 @@ def build_unit(u, scr, workdir, tier, trace=False, common_replace=()):
         if f in cmd:
             cmd.remove(f)
     cmd += u.get('flags', [])
-    if 'unwind' in u:
+    if 'unwind_user' in u:
+        # bound the loops of the code under verification only; the loops of
+        # the contract-instrumentation library (over assigns-clause entries)
+        # get a bound they always finish within
+        rcl, lo, le, sl = sh(['goto-instrument', '--show-loops', gbi], 120)
+        names = re.findall(r'^Loop (\S+):', lo, re.M)
+        us = ['%s:%d' % (n, u['unwind_user']) for n in names
+              if not n.startswith('__CPROVER')]
+        cmd += ['--unwind', '64']
+        if us:
+            cmd += ['--unwindset', ','.join(us)]
+    elif 'unwind' in u:
         cmd += ['--unwind', str(u['unwind'])]
     if 'object_bits' in u:
         cmd += ['--object-bits', str(u['object_bits'])]
@@ -493,33 +504,45 @@ def run_property(prop, tier, only=None, keep=False, jobs=16, seed=0,
             trees[aset] = (root, {k2: v for k2, v in st.items() if v != 'ok'})
             annot_status.update(st)
 
+        def bounded_fallback(u, why):
+            # The loop the annotation is anchored on has changed (the anchor is
+            # gone, or the clauses name variables that no longer exist).
+            # Fall back to bounded refutation on the plain tree: a failing
+            # obligation found within 3 iterations is a real counterexample;
+            # finding none proves nothing (exit 2).
+            u2 = dict(u)
+            u2['loop_contracts'] = False
+            u2['annot'] = []
+            u2.pop('unwind', None)
+            u2['unwind_user'] = 3
+            u2['flags'] = list(u.get('flags', [])) + \
+                ['--no-unwinding-assertions']
+            r = build_unit(u2, scr, workdir, tier)
+            r.unit = u
+            if r.status != 'FAIL':
+                r.status = 'UNDECIDED'
+                r.reason = ('loop annotation failed (%s); bounded '
+                            'fallback (3 iterations) found no failing '
+                            'obligation' % why)
+            else:
+                r.reason = 'loop annotation failed; bounded fallback'
+            return r
+
         def job(u):
             aset = tuple(sorted(u.get('annot', [])))
             root = scr
             if aset:
                 root, bad = trees[aset]
                 if bad:
-                    # The loop the annotation is anchored on has changed.
-                    # Fall back to bounded refutation on the plain tree: a
-                    # failing obligation found within 3 iterations is a real
-                    # counterexample; finding none proves nothing (exit 2).
-                    u2 = dict(u)
-                    u2['loop_contracts'] = False
-                    u2['annot'] = []
-                    u2['unwind'] = 3
-                    u2['flags'] = list(u.get('flags', [])) + \
-                        ['--no-unwinding-assertions']
-                    r = build_unit(u2, scr, workdir, tier)
-                    r.unit = u
-                    if r.status != 'FAIL':
-                        r.status = 'UNDECIDED'
-                        r.reason = ('loop annotation failed (%s); bounded '
-                                    'fallback (3 iterations) found no failing '
-                                    'obligation' % bad)
-                    else:
-                        r.reason = 'loop annotation failed; bounded fallback'
-                    return r
-            return build_unit(u, root, workdir, tier)
+                    return bounded_fallback(u, bad)
+            r = build_unit(u, root, workdir, tier)
+            if aset and r.status == 'UNDECIDED' and \
+                    (r.reason or '').startswith('goto-cc failed') and \
+                    '/annot' in (r.reason or ''):
+                # the annotated copy no longer compiles: the loop contract
+                # names something the loop no longer has
+                return bounded_fallback(u, 'annotated source does not compile')
+            return r
 
         order = list(units)
         if seed:
